@@ -239,14 +239,14 @@ Class(b) ==
 Allowed(b, ok, consumed) == ~ok \/ (Class(b) # "bad" /\ consumed = ItemLen(b))
 
 \* For bstr .cbor targets (cbor.Bstr[T], cbor.ByteWrap[T]): the item is a definite byte string whose
-\* content is exactly one definite well-formed item.
+\* content is exactly one item (of any class but "bad": what holds for an item at the top holds inside).
 WrappedExact(b) ==
     /\ Len(b) > 0 /\ b[1] \div 32 = 2 /\ b[1] % 32 < 28
     /\ Class(b) = "def"
     /\ LET ai == b[1] % 32
            w  == Width(ai)
            c  == SubSeq(b, 2 + w, ItemLen(b))
-       IN  Class(c) = "def" /\ ItemLen(c) = Len(c)
+       IN  Class(c) # "bad" /\ ItemLen(c) = Len(c)
 
 -----------------------------------------------------------------------------
 (* Decoder into the data model (definite lengths only; integers, strings,   *)
